@@ -1,10 +1,13 @@
 // C04: ST::string has value semantics - reads never mutate, results never alias.
+#include <string_theory/codecs>
 #include <string_theory/format>
 #include <string_theory/iostream>
+#include <string_theory/stdio>
 #include <string_theory/string>
 #include <string_theory/string_stream>
 
 #include <cstdarg>
+#include <filesystem>
 #include <sstream>
 #include <string>
 #include <vector>
@@ -26,7 +29,17 @@ const verif::Info verif_info = {
     "step): every live string not targeted by the step has the same bytes, size and data() pointer as before, is NUL-terminated and equals its model; every "
     "live string/buffer/vector element uses storage inside its own object or an exclusively owned live heap block; results keep their creation-time "
     "content; nothing leaks. Non-trivial: a result is outlived by / outlives a mutation or destruction of its source, or a move occurs, with a value "
-    "crossing the small-string limit.",
+    "crossing the small-string limit. "
+    "Extended histories (first byte 60..119; 0..59 keep the original operation table) add: set_validated (4 overloads), ST_LITERAL and the five _st literal "
+    "operators (incl. embedded NULs), null_t construction/assignment/set/comparison, set / operator= / += / set_validated whose pointer or view argument aliases "
+    "the target itself (exact expected bytes), to_buffer into live result-pool buffers (all overloads incl. deprecated), from_validated/from_utf8/16/32/wchar/latin_1, "
+    "constructors, set, operator= and set_validated taking result-pool buffers by const reference and by rvalue, operator+ with a character or C string of every "
+    "width on either side (incl. another string's own c_str()), chains of copies of copies, 14 pre-states (moved-from by constructor/set, short-after-long then "
+    "copied/moved/whole-sliced, self-assigned, self-appended, self-moved, cleared, literal, null) that become the preferred source of the following calls, the "
+    "char8_t / const char* / count / start / max overloads of find*, contains, starts/ends_with, compare*, before/after_*, replace, split, trim, tokenize with "
+    "C-string arguments pointing into pool strings, every to_* number conversion with and without conversion_result, cbegin/cend/crbegin/crend, view(start,n), "
+    "c_str/u8_str(substitute), to_std_string out-parameter overloads, to_path/from_path, hex/base64 decode of a string, format/format_latin_1/_stfmt/writef/printf, "
+    "istream >> string. Steps whose result could exceed 64 KiB are skipped (label growth-capped); a harness resource bound ends the case as discarded.",
     false, "exploration"};
 
 namespace {
@@ -47,6 +60,8 @@ struct World {
     std::string log; bool want_log = false;
     size_t L = 16;
     bool nontrivial = false;
+    int focus = -1;    // extended table: slot built in an unusual pre-state, preferred as source of the following calls
+    bool discard = false;
 
     void note(const char *fmt, ...) __attribute__((format(printf, 2, 3))) {
         if (!want_log) return;
@@ -87,6 +102,41 @@ struct World {
     template <class T> std::string raw_of(const ST::buffer<T> &b) { return std::string(reinterpret_cast<const char *>(b.data()), (b.size() + 1) * sizeof(T)); }
     std::string raw_of_vec(const std::vector<ST::string> &v) { std::string o; for (const ST::string &e : v) { o.append(e.c_str(), e.size() + 1); o += '|'; } return o; }
 
+    // ---- helpers of the extended table ---------------------------------------------------------------------------
+    // construct a new string in a free slot; returns the slot, -1 (no free slot) or -2 (the call refused its input: no result object)
+    template <class F> int emplace(F &&make, int from) {
+        int t = free_str(); if (t < 0) return -1;
+        ST::string *q = place(t);
+        try { va::LibScope l; make(q); }
+        catch (const ST::unicode_error &) { ::free(s[t].raw); s[t].raw = nullptr; return -2; }
+        catch (...) { ::free(s[t].raw); s[t].raw = nullptr; throw; }
+        s[t].obj = q; born(t, from); return t;
+    }
+    void snap(int k) {
+        Res &R = r[k];
+        switch (R.kind) {
+        case 1: R.snap = raw_of(*static_cast<ST::char_buffer *>(R.obj)); break;
+        case 2: R.snap = raw_of(*static_cast<ST::utf16_buffer *>(R.obj)); break;
+        case 3: R.snap = raw_of(*static_cast<ST::utf32_buffer *>(R.obj)); break;
+        case 4: R.snap = raw_of(*static_cast<ST::wchar_buffer *>(R.obj)); break;
+        case 5: R.snap = raw_of_vec(*static_cast<std::vector<ST::string> *>(R.obj)); break;
+        default: break;
+        }
+    }
+    // a live result-pool buffer of kind 1..4 in slot k (made from string `from` when the slot holds nothing suitable)
+    void ensure_buffer(int k, int kind, int from) {
+        if (r[k].kind >= 1 && r[k].kind <= 4) return;
+        destroy_res(k);
+        const ST::string &src = *s[from].obj;
+        { va::LibScope l;
+          switch (kind) {
+          case 1: r[k].obj = new ST::char_buffer(src.to_utf8()); break;
+          case 2: r[k].obj = new ST::utf16_buffer(src.to_utf16()); break;
+          case 3: r[k].obj = new ST::utf32_buffer(src.to_utf32()); break;
+          default: r[k].obj = new ST::wchar_buffer(src.to_wchar()); break;
+          } }
+        r[k].kind = kind; r[k].derived_from = from; snap(k);
+    }
     // storage of an ST::string / buffer living at [obj, obj+objsize): inside itself or an exclusively owned block
     std::string storage_ok(const char *who, int idx, const void *obj, size_t objsize, const void *data, size_t bytes, std::vector<const void *> &seen) {
         char msg[240];
@@ -140,10 +190,16 @@ struct World {
     }
 };
 
-std::string value(verif::Reader &r, size_t L) {
-    const size_t lens[] = {0, 1, L - 1, L, L + 1, 2 * L, 300, 3, 7};
-    size_t n = r.pick(lens);
-    uint8_t st = r.u8();
+// labels are recorded once per case; in extended histories the classes of the original table may take at most 5 of the 12 label slots,
+// so that the evidence histogram shows whether the new classes are reached
+bool g_ext_case = false, g_ext_op = false;
+void lab(Case &c, const char *l) {
+    for (int i = 0; i < c.nlabels; i++) if (c.labels[i] == l || !strcmp(c.labels[i], l)) return;
+    if (g_ext_case && !g_ext_op && c.nlabels >= 5) return;
+    c.label(l);
+}
+
+std::string content(size_t n, uint8_t st) {
     std::string v;
     while (v.size() < n) {
         size_t i = v.size();
@@ -156,6 +212,27 @@ std::string value(verif::Reader &r, size_t L) {
     }
     return v;
 }
+std::string value(verif::Reader &r, size_t L) {
+    const size_t lens[] = {0, 1, L - 1, L, L + 1, 2 * L, 300, 3, 7};
+    size_t n = r.pick(lens);
+    uint8_t st = r.u8();
+    return content(n, st);
+}
+std::string short_value(verif::Reader &r, size_t L) { const size_t lens[] = {1, L - 1, 3, 7}; size_t n = r.pick(lens); return content(n, r.u8()); }
+std::string long_value(verif::Reader &r, size_t L) { const size_t lens[] = {L, L + 1, 2 * L, 300}; size_t n = r.pick(lens); return content(n, r.u8()); }
+bool is_ascii(const std::string &v) { for (unsigned char ch : v) if (ch >= 0x80) return false; return true; }
+
+// literal table: every entry through ST_LITERAL and the five _st operators; ASCII + NUL only, so every form yields the narrow bytes
+using namespace ST::literals;
+#define C04_LITS(X) X("") X("a") X("ab\0cd") X("0123456789ABCDE") X("0123456789ABCDEF") X("0123456789ABCDEFG") X("0123456\0zzABCDEF") \
+    X("The quick brown fox\0jumps over the lazy dog") X("nul at end\0")
+struct SLit { ST::string (*f[6])(); const char *narrow; size_t len; };
+#define X(s) { { +[]() -> ST::string { return ST_LITERAL(s); }, +[]() -> ST::string { return s##_st; }, +[]() -> ST::string { return L##s##_st; }, \
+                 +[]() -> ST::string { return u##s##_st; }, +[]() -> ST::string { return U##s##_st; }, +[]() -> ST::string { return u8##s##_st; } }, s, sizeof(s) - 1 },
+const SLit g_lits[] = { C04_LITS(X) };
+#undef X
+enum { NSLIT = sizeof(g_lits) / sizeof(g_lits[0]) };
+FILE *devnull() { static FILE *f = fopen("/dev/null", "w"); return f; }
 
 std::string run(verif::Reader &rd, Case &c, World &w) {
     va::reset();
@@ -163,10 +240,25 @@ std::string run(verif::Reader &rd, Case &c, World &w) {
         for (size_t n = 0; n < 64; n++) { void *raw = ::malloc(sizeof(ST::string)); ST::string *t; { va::LibScope l; t = new (raw) ST::string(ST::string::fill(n, 'q')); }
             const char *d = t->c_str(); bool in = d >= (const char *)raw && d < (const char *)raw + sizeof(ST::string); { va::LibScope l; t->~string(); } ::free(raw); if (!in) { w.L = n; break; } }
     }
-    size_t nops = 1 + rd.range(0, 59);
+    // first byte: 0..59 = original operation table with 1..60 operations; 60..119 = extended table (a superset) with 1..60 operations
+    size_t first = rd.range(0, 119);
+    const bool ext = first >= 60;
+    size_t nops = 1 + first % 60;
+    g_ext_case = ext; g_ext_op = true;
+    if (ext) lab(c, "extended-table");
+    // steps whose result could exceed 64 KiB are skipped: repeated doubling is legitimate growth, not a verdict
+    auto capped = [&](size_t worst) -> bool { if (worst <= 65536) return false; lab(c, "growth-capped"); w.note("(skipped: result up to %zu bytes); ", worst); return true; };
     for (size_t k = 0; k < nops; k++) {
-        int op = (int)rd.range(0, 63), i = (int)rd.idx(NS), j = (int)rd.idx(NS), h = (int)rd.idx(NS);
+        int op, i, j, h;
+        if (!ext) { op = (int)rd.range(0, 63); i = (int)rd.idx(NS); j = (int)rd.idx(NS); h = (int)rd.idx(NS); }
+        else {
+            op = (int)rd.range(0, 127); if (op >= 112) op = 74 + (op & 1); else if (op >= 80) op = 64 + (op - 80) % 16;
+            uint8_t bi = rd.u8(), bj = rd.u8(); h = (int)rd.idx(NS);
+            i = bi % NS; j = bj % NS;
+            if (w.focus >= 0 && w.s[w.focus].obj) { if (bi & 0x40) i = w.focus; if (bj & 0x40) j = w.focus; }
+        }
         int target = -1, target2 = -1;
+        g_ext_op = op >= 64;
         if (op >= 3 && !w.s[i].obj) op = 0;
         if (!w.s[j].obj) j = i;
         if (!w.s[h].obj) h = i;
@@ -179,26 +271,27 @@ std::string run(verif::Reader &rd, Case &c, World &w) {
             // ------------------------------------------------------------ construction / mutation
             case 0: case 1: case 2: { if (w.s[i].obj) continue; std::string v = value(rd, w.L); verif::Exact<char> e(v.data(), v.size());
                 { ST::string *q = w.place(i); va::LibScope l; w.s[i].obj = new (q) ST::string(e.data(), e.size(), ST::assume_valid); } w.born(i, -1); target = i; w.note("%d=string(%zu); ", i, v.size()); break; }
-            case 3: { int t = w.free_str(); if (t < 0) continue; { ST::string *q = w.place(t); va::LibScope l; w.s[t].obj = new (q) ST::string(*S); } w.born(t, i); target = t; c.label("copy-construct"); w.note("%d=string(copy %d); ", t, i); break; }
+            case 3: { int t = w.free_str(); if (t < 0) continue; { ST::string *q = w.place(t); va::LibScope l; w.s[t].obj = new (q) ST::string(*S); } w.born(t, i); target = t; lab(c, "copy-construct"); w.note("%d=string(copy %d); ", t, i); break; }
             case 4: { int t = w.free_str(); if (t < 0) continue; { ST::string *q = w.place(t); va::LibScope l; w.s[t].obj = new (q) ST::string(std::move(*S)); } w.born(t, -1); w.adopt(i); target = t; target2 = i;
-                if (w.s[t].model.size() >= w.L - 1) w.nontrivial = true; c.label("move-construct"); w.note("%d=string(move %d); ", t, i); break; }
+                if (w.s[t].model.size() >= w.L - 1) w.nontrivial = true; lab(c, "move-construct"); w.note("%d=string(move %d); ", t, i); break; }
             case 5: w.destroy_str(i); w.note("~%d; ", i); break;
-            case 6: case 7: { w.mutated(i); { va::LibScope l; *S = *J; } w.adopt(i); w.s[i].derived_from = (i == j) ? w.s[i].derived_from : j; target = i; c.label(i == j ? "self-copy-assign" : "copy-assign"); w.note("%d=copy %d; ", i, j); break; }
+            case 6: case 7: { w.mutated(i); { va::LibScope l; *S = *J; } w.adopt(i); w.s[i].derived_from = (i == j) ? w.s[i].derived_from : j; target = i; lab(c, i == j ? "self-copy-assign" : "copy-assign"); w.note("%d=copy %d; ", i, j); break; }
             case 8: { w.mutated(i); { va::LibScope l; *S = std::move(*J); } w.adopt(i); if (i != j) { w.adopt(j); w.s[i].derived_from = -1; } target = i; target2 = j;
-                if (w.s[i].model.size() >= w.L - 1) w.nontrivial = true; c.label(i == j ? "self-move-assign" : "move-assign"); w.note("%d=move %d; ", i, j); break; }
+                if (w.s[i].model.size() >= w.L - 1) w.nontrivial = true; lab(c, i == j ? "self-move-assign" : "move-assign"); w.note("%d=move %d; ", i, j); break; }
             case 9: { w.mutated(i); std::string v = value(rd, w.L); verif::Exact<char> e(v.data(), v.size()); { va::LibScope l; S->set(e.data(), e.size(), ST::assume_valid); } w.adopt(i); target = i; w.note("%d.set(%zu); ", i, v.size()); break; }
             case 10: { w.mutated(i); { va::LibScope l; S->set(*J); } w.adopt(i); target = i; w.note("%d.set(%d); ", i, j); break; }
             case 11: { w.mutated(i); { va::LibScope l; S->set(J->to_utf8(), ST::assume_valid); } w.adopt(i); target = i; w.note("%d.set(%d.to_utf8()); ", i, j); break; }
-            case 12: case 13: { w.mutated(i); { va::LibScope l; *S += *J; } w.adopt(i); target = i; c.label(i == j ? "s+=s" : "+=string"); w.note("%d+=%d; ", i, j); break; }
-            case 14: { w.mutated(i); std::string v = value(rd, w.L); for (char &ch : v) if (!ch) ch = '0'; verif::Exact<char> e(v.data(), v.size(), true); { va::LibScope l; *S += e.data(); } w.adopt(i); target = i; w.note("%d+=cstr(%zu); ", i, v.size()); break; }
-            case 15: { w.mutated(i); { va::LibScope l; switch (rd.range(0, 3)) { case 0: *S += 'x'; break; case 1: *S += U'€'; break; case 2: *S += u'é'; break; default: *S += L'\U0001F600'; break; } } w.adopt(i); target = i; w.note("%d+=char; ", i); break; }
+            case 12: case 13: { if (capped(S->size() + J->size())) break; w.mutated(i); { va::LibScope l; *S += *J; } w.adopt(i); target = i; lab(c, i == j ? "s+=s" : "+=string"); w.note("%d+=%d; ", i, j); break; }
+            case 14: { std::string v = value(rd, w.L); if (capped(S->size() + v.size())) break; w.mutated(i); for (char &ch : v) if (!ch) ch = '0'; verif::Exact<char> e(v.data(), v.size(), true); { va::LibScope l; *S += e.data(); } w.adopt(i); target = i; w.note("%d+=cstr(%zu); ", i, v.size()); break; }
+            case 15: { if (capped(S->size() + 4)) break; w.mutated(i); { va::LibScope l; switch (rd.range(0, 3)) { case 0: *S += 'x'; break; case 1: *S += U'€'; break; case 2: *S += u'é'; break; default: *S += L'\U0001F600'; break; } } w.adopt(i); target = i; w.note("%d+=char; ", i); break; }
             case 16: { w.mutated(i); { va::LibScope l; S->clear(); } w.adopt(i); target = i; w.note("%d.clear(); ", i); break; }
             case 17: { int k2 = (int)rd.idx(NR); if (w.r[k2].kind) { if (w.r[k2].derived_from >= 0) w.nontrivial = true; w.destroy_res(k2); w.note("~result%d; ", k2); } break; }
             // ------------------------------------------------------------ const calls returning strings (stored in a free slot)
             case 18: case 19: case 20: case 21: case 22: case 23: case 24: case 25: case 26: case 27: case 28: case 29: case 30: case 31: case 32: case 33: case 34: case 35: {
                 int t = w.free_str(); if (t < 0) { w.destroy_str((int)rd.idx(NS)); continue; }
-                ST::string *q = w.place(t);
                 size_t sz = S->size();
+                if ((op == 22 && !J->empty() && capped(sz + (sz / J->size()) * H->size())) || (op == 24 && capped(sz * 4)) || ((op == 27 || op == 29 || op == 30) && capped(2 * sz + J->size() + 64)) || (op == 28 && capped(sz + 8))) break;
+                ST::string *q = w.place(t);
                 const char *what = "";
                 bool made = false;
                 try {
@@ -226,7 +319,7 @@ std::string run(verif::Reader &rd, Case &c, World &w) {
                     }
                     made = true;
                 } catch (const ST::unicode_error &) { }      // replace()/+ re-validate: a refused result is no result (C04 does not judge content)
-                if (made) { w.s[t].obj = q; w.born(t, i); target = t; if (w.s[t].model == mi) c.label("result-equals-source"); c.label(what); w.note("%d=%d.%s; ", t, i, what); }
+                if (made) { w.s[t].obj = q; w.born(t, i); target = t; if (w.s[t].model == mi) lab(c, "result-equals-source"); lab(c, what); w.note("%d=%d.%s; ", t, i, what); }
                 else { ::free(w.s[t].raw); w.s[t].raw = nullptr; w.note("%d.%s threw unicode_error; ", i, what); }
                 break; }
             // ------------------------------------------------------------ const calls returning buffers / vectors (stored in the result pool)
@@ -255,8 +348,330 @@ std::string run(verif::Reader &rd, Case &c, World &w) {
                 case 4: R.snap = w.raw_of(*static_cast<ST::wchar_buffer *>(R.obj)); break;
                 default: R.snap = w.raw_of_vec(*static_cast<std::vector<ST::string> *>(R.obj)); break;
                 }
-                R.derived_from = i; c.label(what); w.note("result%d=%d.%s; ", k2, i, what);
+                R.derived_from = i; lab(c, what); w.note("result%d=%d.%s; ", k2, i, what);
                 break; }
+            // ============================================================ extended table (ops 64..79, reachable only with first byte >= 60)
+            case 64: {   // rebuild slot i in an unusual pre-state; the slot becomes the preferred source of the following calls
+                static const char *const kn[14] = {"pre:moved-from(ctor)", "pre:moved-from(set&&)", "pre:short-after-long", "pre:short-after-long,copied", "pre:short-after-long,moved",
+                    "pre:short-after-long,whole-sliced", "pre:self-assigned", "pre:self-appended", "pre:long-after-short", "pre:cleared-after-long", "pre:self-move-assigned",
+                    "pre:default", "pre:literal", "pre:null_t"};
+                int kind = (int)rd.idx(14);
+                std::string sh = short_value(rd, w.L), lg = long_value(rd, w.L);
+                w.destroy_str(i);
+                auto mk = [&](const std::string &v) { verif::Exact<char> e(v.data(), v.size()); ST::string *q = w.place(i); { va::LibScope l; w.s[i].obj = new (q) ST::string(e.data(), e.size(), ST::assume_valid); } w.born(i, -1); };
+                auto assign_copy = [&](const std::string &v) { verif::Exact<char> e(v.data(), v.size()); { va::LibScope l; ST::string tmp(e.data(), e.size(), ST::assume_valid); *w.s[i].obj = tmp; } w.adopt(i); };
+                int fs = i;
+                switch (kind) {
+                case 0: mk(lg); { va::LibScope l; ST::string t(std::move(*w.s[i].obj)); } w.adopt(i); break;
+                case 1: mk(sh); { va::LibScope l; ST::string t; t.set(std::move(*w.s[i].obj)); } w.adopt(i); break;
+                case 2: mk(lg); assign_copy(sh); break;
+                case 3: case 4: case 5: {
+                    mk(lg); assign_copy(sh);
+                    { std::string why0 = w.check(i); if (!why0.empty()) return "step " + verif::unum(k) + " (" + kn[kind] + ", after the copy assignment): " + why0; }
+                    int t = w.emplace([&](ST::string *q) { if (kind == 3) new (q) ST::string(*w.s[i].obj); else if (kind == 4) new (q) ST::string(std::move(*w.s[i].obj)); else new (q) ST::string(w.s[i].obj->substr(0)); }, kind == 4 ? -1 : i);
+                    if (kind == 4) w.adopt(i);
+                    if (t >= 0) { fs = t; if (kind != 4 && w.s[t].model != w.s[i].model) return "step " + verif::unum(k) + " (" + kn[kind] + "): the copy differs from its source"; }
+                    break; }
+                case 6: mk(lg); { va::LibScope l; ST::string &a = *w.s[i].obj; a = a; } w.adopt(i); break;
+                case 7: mk(sh); { va::LibScope l; ST::string &a = *w.s[i].obj; a += a; } w.adopt(i); break;
+                case 8: mk(sh); assign_copy(lg); break;
+                case 9: mk(lg); { va::LibScope l; w.s[i].obj->clear(); } w.adopt(i); break;
+                case 10: mk(lg); { va::LibScope l; ST::string &a = *w.s[i].obj; a = std::move(a); } w.adopt(i); break;
+                case 11: { ST::string *q = w.place(i); va::LibScope l; w.s[i].obj = new (q) ST::string(); } w.born(i, -1); break;
+                case 12: { const SLit &e = g_lits[sh.size() % NSLIT]; { ST::string *q = w.place(i); va::LibScope l; w.s[i].obj = new (q) ST::string(e.f[lg.size() % 6]()); } w.born(i, -1);
+                           if (w.s[i].model != std::string(e.narrow, e.len)) return "step " + verif::unum(k) + ": a string literal of " + verif::unum(e.len) + " bytes produced a string of " + verif::unum(w.s[i].model.size()) + " bytes / other bytes"; break; }
+                default: { ST::string *q = w.place(i); va::LibScope l; w.s[i].obj = new (q) ST::string(ST::null_t()); } w.born(i, -1); break;
+                }
+                w.focus = fs; target = i; target2 = fs;
+                if (kind <= 5 || kind == 8 || kind == 10) w.nontrivial = true;
+                lab(c, kn[kind]); w.note("%d:=<%s>%s; ", i, kn[kind] + 4, fs != i ? " (focus on the derived string)" : "");
+                break; }
+            case 65: {   // set_validated, four overloads; sources: harness bytes, a temporary buffer, a result-pool buffer by const reference / rvalue
+                int v = (int)rd.range(0, 5); std::string val = value(rd, w.L); verif::Exact<char> e(val.data(), val.size());
+                int k2 = (int)rd.idx(NR); bool pool = v >= 4 && w.r[k2].kind == 1;
+                w.mutated(i);
+                { va::LibScope l;
+                  switch (v) {
+                  case 0: S->set_validated(e.data(), e.size()); break;
+                  case 1: S->set_validated(reinterpret_cast<const char8_t *>(e.data()), e.size()); break;
+                  case 2: { ST::char_buffer b(e.data(), e.size()); S->set_validated(b); break; }
+                  case 3: { ST::char_buffer b(e.data(), e.size()); S->set_validated(std::move(b)); break; }
+                  case 4: if (pool) S->set_validated(*static_cast<const ST::char_buffer *>(w.r[k2].obj)); else { const ST::char_buffer b(e.data(), e.size()); S->set_validated(b); } break;
+                  default: if (pool) S->set_validated(std::move(*static_cast<ST::char_buffer *>(w.r[k2].obj))); else S->set_validated(ST::char_buffer(e.data(), e.size())); break;
+                  } }
+                std::string want = pool ? w.r[k2].snap.substr(0, w.r[k2].snap.size() - 1) : val;
+                if (pool && v == 5) w.snap(k2);      // the moved-from buffer holds an unspecified valid value from now on
+                w.adopt(i); target = i;
+                if (w.s[i].model != want) return "step " + verif::unum(k) + ": set_validated (form " + verif::num(v) + ") stored bytes other than the " + verif::unum(want.size()) + " given";
+                lab(c, pool ? "set_validated(pool buffer)" : "set_validated"); w.note("%d.set_validated#%d(%zu); ", i, v, want.size()); break; }
+            case 66: {   // ST_LITERAL and the _st literal operators: a new string, or move-assigned over a live one
+                unsigned sel = (unsigned)rd.range(0, 6 * NSLIT - 1); const SLit &e = g_lits[sel % NSLIT]; unsigned form = sel / NSLIT; bool over = rd.flag();
+                std::string want(e.narrow, e.len);
+                int t = i;
+                if (over) { w.mutated(i); { va::LibScope l; *S = e.f[form](); } w.adopt(i); target = i; }
+                else { t = w.emplace([&](ST::string *q) { new (q) ST::string(e.f[form]()); }, -1); if (t < 0) { w.destroy_str((int)rd.idx(NS)); continue; } target = t; }
+                if (w.s[t].model != want) return "step " + verif::unum(k) + ": literal form " + verif::unum(form) + " of " + verif::unum(e.len) + " bytes produced a string of " + verif::unum(w.s[t].model.size()) + " bytes / other bytes";
+                lab(c, form == 0 ? "ST_LITERAL" : "_st literal"); if (memchr(e.narrow, 0, e.len)) lab(c, "literal-with-NUL"); w.note("%d=literal#%u.%u; ", t, sel % NSLIT, form); break; }
+            case 67: {   // null_t forms
+                int v = (int)rd.range(0, 3);
+                if (v == 0) { w.mutated(i); { va::LibScope l; S->set(ST::null_t()); } w.adopt(i); target = i; }
+                else if (v == 1) { w.mutated(i); { va::LibScope l; *S = ST::null_t(); } w.adopt(i); target = i; }
+                else if (v == 2) { int t = w.emplace([&](ST::string *q) { new (q) ST::string(ST::null_t()); }, -1); if (t < 0) { w.destroy_str((int)rd.idx(NS)); continue; } target = t; i = t; }
+                else { va::LibScope l; bool e = mi.empty(); if ((*S == ST::null_t()) != e || (*S != ST::null_t()) != !e || (ST::null_t() == *S) != e || (ST::null_t() != *S) != !e) return "step " + verif::unum(k) + ": comparison with null_t disagrees with empty()"; }
+                if (v != 3 && !w.s[i].model.empty()) return "step " + verif::unum(k) + ": null_t form " + verif::num(v) + " left a non-empty string";
+                lab(c, "null_t"); w.note("%d null_t#%d; ", i, v); break; }
+            case 68: case 69: {   // the source pointer / view aliases the target itself: the value given is the bytes it denoted at the time of the call
+                int v = (int)rd.range(0, 13); size_t sz = S->size(); size_t a = rd.range(0, sz), n = rd.range(0, sz - a);
+                std::string want; bool exact = true, may_refuse = false;
+                std::string tailz(mi.c_str() + a);      // what a const char* overload can see from offset a
+                if ((v == 5 || v == 13) && capped(sz * 2 + 1)) break;
+                w.mutated(i); target = i;
+                try {
+                    va::LibScope l;
+                    switch (v) {
+                    case 0: S->set(S->c_str() + a, n, ST::assume_valid); want = mi.substr(a, n); break;
+                    case 1: S->set_validated(S->c_str() + a, n); want = mi.substr(a, n); break;
+                    case 2: S->set(S->view(a, n), ST::assume_valid); want = mi.substr(a, n); break;
+                    case 3: *S = S->c_str() + a; want = tailz; may_refuse = true; break;
+                    case 4: *S = S->view(a, n); want = mi.substr(a, n); may_refuse = true; break;
+                    case 5: *S += S->c_str() + a; want = mi + tailz; may_refuse = true; break;
+                    case 6: S->set(S->u8_str() + a, n, ST::assume_valid); want = mi.substr(a, n); break;
+                    case 7: *S = S->to_utf8(); want = mi; may_refuse = true; break;
+                    case 8: S->set(std::move(*S)); exact = false; break;
+                    case 9: S->set(S->c_str() + a); want = tailz; may_refuse = true; break;
+                    case 10: S->set_validated(S->u8_str() + a, n); want = mi.substr(a, n); break;
+                    case 11: S->set(S->to_utf8(), ST::substitute_invalid); exact = is_ascii(mi); want = mi; break;
+                    case 12: S->set(S->data() + a, ST_AUTO_SIZE, ST::assume_valid); want = tailz; break;
+                    default: *S = *S + S->c_str(); want = mi + std::string(mi.c_str()); may_refuse = true; break;
+                    }
+                } catch (const ST::unicode_error &) { (void)may_refuse; exact = false; lab(c, "refused-by-validation"); }
+                w.adopt(i);
+                if (exact && w.s[i].model != want) return "step " + verif::unum(k) + ": aliasing form " + verif::num(v) + " (offset " + verif::unum(a) + ", count " + verif::unum(n) + " of its own " + verif::unum(sz) +
+                                                          " bytes) left " + verif::quoted(w.s[i].model, 40) + ", the bytes it was given are " + verif::quoted(want, 40);
+                if (sz >= w.L - 1) w.nontrivial = true;
+                lab(c, "set/assign-from-own-storage"); w.note("%d.alias#%d(%zu,%zu); ", i, v, a, n); break; }
+            case 70: {   // to_buffer into a caller-supplied, live buffer of the result pool (all overloads incl. the deprecated one)
+                int k2 = (int)rd.idx(NR); int v = (int)rd.range(0, 4); int kind = 1 + (int)rd.idx(4);
+                if (w.r[k2].kind == 5) w.destroy_res(k2);
+                if (!w.r[k2].kind) { va::LibScope l; switch (kind) { case 1: w.r[k2].obj = new ST::char_buffer(); break; case 2: w.r[k2].obj = new ST::utf16_buffer(); break; case 3: w.r[k2].obj = new ST::utf32_buffer(); break; default: w.r[k2].obj = new ST::wchar_buffer(); break; }
+                                    w.r[k2].kind = kind; w.snap(k2); }
+                Res &R = w.r[k2];
+                try {
+                    va::LibScope l;
+                    switch (R.kind) {
+                    case 1: { ST::char_buffer &b = *static_cast<ST::char_buffer *>(R.obj);
+                              switch (v) { case 0: S->to_buffer(b); break; case 1: S->to_buffer(b, false); break; case 2: S->to_buffer(b, true, false); break; case 3: S->to_buffer(b, false, ST::substitute_invalid); break; default: S->to_buffer(b, false, false); break; } break; }
+                    case 2: S->to_buffer(*static_cast<ST::utf16_buffer *>(R.obj)); break;
+                    case 3: S->to_buffer(*static_cast<ST::utf32_buffer *>(R.obj)); break;
+                    default: S->to_buffer(*static_cast<ST::wchar_buffer *>(R.obj)); break;
+                    }
+                } catch (const ST::unicode_error &) { lab(c, "refused-by-validation"); }      // to_latin_1(false) refuses characters above U+00FF; what the buffer holds then is C18's business
+                w.snap(k2); R.derived_from = i;
+                lab(c, "to_buffer(out-param)"); w.note("%d.to_buffer(result%d kind %d)#%d; ", i, k2, R.kind, v); break; }
+            case 71: {   // strings made from result-pool buffers, taken by const reference or by rvalue
+                int k2 = (int)rd.idx(NR); int kind = 1 + (int)rd.idx(4); int v = (int)rd.range(0, 13);
+                static const ST::utf_validation_t vals[3] = {ST::assume_valid, ST::substitute_invalid, ST::check_validity};
+                ST::utf_validation_t val = vals[rd.idx(3)];
+                w.ensure_buffer(k2, kind, i);
+                Res &R = w.r[k2]; bool moved = false; int from = R.derived_from;
+                int t = w.emplace([&](ST::string *q) {
+                    switch (R.kind) {
+                    case 1: { ST::char_buffer &b = *static_cast<ST::char_buffer *>(R.obj); const ST::char_buffer &cb = b;
+                        switch (v) {
+                        case 0: new (q) ST::string(ST::string::from_validated(cb)); break;
+                        case 1: moved = true; new (q) ST::string(ST::string::from_validated(std::move(b))); break;
+                        case 2: new (q) ST::string(ST::string::from_utf8(cb, val)); break;
+                        case 3: new (q) ST::string(ST::string::from_latin_1(cb)); break;
+                        case 4: new (q) ST::string(cb, val); break;
+                        case 5: moved = true; new (q) ST::string(std::move(b), val); break;
+                        case 6: new (q) ST::string(); q->set(cb, val); break;
+                        case 7: moved = true; new (q) ST::string(); q->set(std::move(b), val); break;
+                        case 8: new (q) ST::string(); *q = cb; break;
+                        case 9: moved = true; new (q) ST::string(); *q = std::move(b); break;
+                        case 10: new (q) ST::string(); q->set_validated(cb); break;
+                        case 11: moved = true; new (q) ST::string(); q->set_validated(std::move(b)); break;
+                        case 12: new (q) ST::string(ST::hex_encode(cb)); break;
+                        default: new (q) ST::string(ST::base64_encode(cb)); break;
+                        } break; }
+                    case 2: { const ST::utf16_buffer &cb = *static_cast<ST::utf16_buffer *>(R.obj);
+                        switch (v % 5) { case 0: new (q) ST::string(ST::string::from_utf16(cb, val)); break; case 1: new (q) ST::string(cb, val); break; case 2: new (q) ST::string(); q->set(cb, val); break;
+                                         case 3: new (q) ST::string(); *q = cb; break; default: new (q) ST::string(ST::string::from_utf16(cb.data(), cb.size(), val)); break; } break; }
+                    case 3: { const ST::utf32_buffer &cb = *static_cast<ST::utf32_buffer *>(R.obj);
+                        switch (v % 5) { case 0: new (q) ST::string(ST::string::from_utf32(cb, val)); break; case 1: new (q) ST::string(cb, val); break; case 2: new (q) ST::string(); q->set(cb, val); break;
+                                         case 3: new (q) ST::string(); *q = cb; break; default: new (q) ST::string(ST::string::from_utf32(cb.data(), cb.size(), val)); break; } break; }
+                    default: { const ST::wchar_buffer &cb = *static_cast<ST::wchar_buffer *>(R.obj);
+                        switch (v % 5) { case 0: new (q) ST::string(ST::string::from_wchar(cb, val)); break; case 1: new (q) ST::string(cb, val); break; case 2: new (q) ST::string(); q->set(cb, val); break;
+                                         case 3: new (q) ST::string(); *q = cb; break; default: new (q) ST::string(ST::string::from_wchar(cb.data(), cb.size(), val)); break; } break; }
+                    } }, from);
+                if (moved) w.snap(k2);      // a moved-from buffer holds an unspecified valid value from now on (also when the call then refused its input)
+                if (t == -1) { w.destroy_str((int)rd.idx(NS)); continue; }
+                if (t == -2) { lab(c, "refused-by-validation"); w.note("string(result%d)#%d refused; ", k2, v); break; }
+                target = t; lab(c, moved ? "string-from-buffer(rvalue)" : "string-from-buffer(const&)"); w.note("%d=string(result%d kind %d)#%d; ", t, k2, R.kind, v); break; }
+            case 72: {   // operator+ with a character or C string of every width on either side
+                int v = (int)rd.range(0, 23);
+                if (capped(S->size() + J->size() + 16)) break;
+                const char *what = "operator+ (char/C string on the left)";
+                int t = w.emplace([&](ST::string *q) {
+                    switch (v) {
+                    case 0: new (q) ST::string("head" + *S); break;
+                    case 1: new (q) ST::string(u8"hé" + *S); break;
+                    case 2: new (q) ST::string(L"wé€" + *S); break;
+                    case 3: new (q) ST::string(u"ü€" + *S); break;
+                    case 4: new (q) ST::string(U"\U0001F600x" + *S); break;
+                    case 5: new (q) ST::string('c' + *S); break;
+                    case 6: new (q) ST::string('\xE9' + *S); break;
+                    case 7: new (q) ST::string(L'é' + *S); break;
+                    case 8: new (q) ST::string(u'€' + *S); break;
+                    case 9: new (q) ST::string(U'\U0001F600' + *S); break;
+                    case 10: new (q) ST::string(J->c_str() + *S); break;
+                    case 11: new (q) ST::string(S->c_str() + *S); break;
+                    case 12: what = "operator+ (char/C string on the right)"; new (q) ST::string(*S + u8"té"); break;
+                    case 13: what = "operator+ (char/C string on the right)"; new (q) ST::string(*S + L"w€"); break;
+                    case 14: what = "operator+ (char/C string on the right)"; new (q) ST::string(*S + U"\U0001F600"); break;
+                    case 15: what = "operator+ (char/C string on the right)"; new (q) ST::string(*S + '\xE9'); break;
+                    case 16: what = "operator+ (char/C string on the right)"; new (q) ST::string(*S + L'é'); break;
+                    case 17: what = "operator+ (char/C string on the right)"; new (q) ST::string(*S + u'€'); break;
+                    case 18: what = "operator+ (char/C string on the right)"; new (q) ST::string(*S + U'\U0001F600'); break;
+                    case 19: what = "operator+ (char/C string on the right)"; new (q) ST::string(*S + J->c_str()); break;
+                    case 20: what = "operator+ (char/C string on the right)"; new (q) ST::string(*S + S->c_str()); break;
+                    case 21: new (q) ST::string(J->u8_str() + *S); break;
+                    case 22: what = "operator+ (char/C string on the right)"; new (q) ST::string(*S + J->u8_str()); break;
+                    default: new (q) ST::string(u"" + *S + U"" + L""); break;
+                    } }, i);
+                if (t == -1) { w.destroy_str((int)rd.idx(NS)); continue; }
+                if (t == -2) { lab(c, "refused-by-validation"); break; }
+                target = t; lab(c, what); w.note("%d=plus#%d(%d,%d); ", t, v, i, j); break; }
+            case 73: {   // copies of copies: a copy, a copy of the copy, the first copy changed or destroyed, a copy of the second copy
+                int how = (int)rd.range(0, 3);
+                int t1 = w.emplace([&](ST::string *q) { new (q) ST::string(*S); }, i);
+                if (t1 < 0) { w.destroy_str((int)rd.idx(NS)); continue; }
+                { std::string why1 = w.check(t1); if (!why1.empty()) return "step " + verif::unum(k) + " (copy of a copy, first copy): " + why1; }
+                int t2 = w.emplace([&](ST::string *q) { new (q) ST::string(*w.s[t1].obj); }, t1);
+                if (t2 >= 0) { std::string why2 = w.check(t2); if (!why2.empty()) return "step " + verif::unum(k) + " (copy of a copy, second copy): " + why2; }
+                if (how == 0) w.destroy_str(t1);
+                else if (how == 1) { w.mutated(t1); { va::LibScope l; w.s[t1].obj->clear(); } w.adopt(t1); }
+                else if (how == 2) { w.mutated(t1); w.mutated(i); { va::LibScope l; *w.s[t1].obj = std::move(*S); } w.adopt(t1); w.adopt(i); }
+                else if (t2 >= 0) { w.mutated(t1); { va::LibScope l; *w.s[t1].obj = *w.s[t2].obj; } w.adopt(t1); }
+                { std::string why3 = w.check(t1, i); if (!why3.empty()) return "step " + verif::unum(k) + " (copy of a copy, after changing the first copy): " + why3; }
+                if (t2 >= 0) { int t3 = w.emplace([&](ST::string *q) { new (q) ST::string(*w.s[t2].obj); }, t2); if (t3 >= 0 && w.s[t3].model != w.s[t2].model) return "step " + verif::unum(k) + ": third-generation copy differs from its source"; target2 = t3; }
+                target = t1; if (mi.size() >= w.L - 1) w.nontrivial = true;
+                lab(c, "copies-of-copies"); w.note("copies of %d (how %d); ", i, how); break; }
+            case 74: case 75: {   // further const calls that return strings: C-string arguments point into pool strings, char8_t / deprecated overloads, converting round trips
+                int v = (int)rd.range(0, 39); size_t sz = S->size(); size_t a = rd.range(0, sz), n = rd.range(0, sz - a);
+                bool ci = rd.flag(); ST::case_sensitivity_t cs = ci ? ST::case_insensitive : ST::case_sensitive;
+                {   // worst-case result sizes of the growing forms
+                    size_t from_len = (v == 5 || v == 7) ? 1 : (v == 2 || v == 6 || v == 8) ? J->size() : strlen(J->c_str());
+                    size_t to_len = v == 2 ? strlen(H->c_str()) : (v == 3 || v == 7 || v == 8) ? H->size() : v == 4 ? strlen(S->c_str()) : 2;
+                    if (v >= 2 && v <= 8 && from_len && capped(sz + (sz / from_len) * to_len)) break;
+                    if ((v == 13 || v == 14 || v == 15 || v == 16 || v == 35) && capped(2 * sz + 2 * J->size() + 64)) break;
+                    if ((v == 33 || v == 34) && capped(sz * 2 + 4)) break;
+                }
+                const char *what = "more string results";
+                int t = -1;
+                try {
+                    t = w.emplace([&](ST::string *q) {
+                        switch (v) {
+                        case 0: what = "string(view(a,n))"; new (q) ST::string(S->view(a, n), ST::assume_valid); break;
+                        case 1: what = "fill"; new (q) ST::string(ST::string::fill(a, sz ? (*S)[0] : 'f')); break;
+                        case 2: what = "replace(string,cstr)"; new (q) ST::string(S->replace(*J, H->c_str(), cs)); break;
+                        case 3: what = "replace(cstr,string)"; new (q) ST::string(S->replace(J->c_str(), *H, cs)); break;
+                        case 4: what = "replace(cstr,cstr) own storage"; new (q) ST::string(S->replace(J->c_str(), S->c_str(), cs)); break;
+                        case 5: what = "replace(char8_t)"; new (q) ST::string(static_cast<const ST::string &>(*S).replace(u8"a", u8"é", cs)); break;   // through a const reference: the (char8_t*, string) overload lacks const and makes the call on a non-const string ambiguous
+                        case 6: what = "replace(char8_t)"; new (q) ST::string(S->replace(*J, u8"x", cs)); break;
+                        case 7: what = "replace(char8_t)"; new (q) ST::string(S->replace(u8"a", *H, cs)); break;
+                        case 8: what = "replace(deprecated)"; new (q) ST::string(S->replace(*J, *H, cs, ST::assume_valid)); break;
+                        case 9: what = "trim(charset)"; new (q) ST::string(ci ? S->trim(J->c_str()) : S->trim_left(J->c_str())); break;
+                        case 10: what = "trim(charset)"; new (q) ST::string(ci ? S->trim_right(J->c_str()) : S->trim_right(" a")); break;
+                        case 11: what = "before/after(char8_t)"; new (q) ST::string(ci ? S->before_first(u8"a", cs) : S->after_first(u8",")); break;
+                        case 12: what = "before/after(char8_t)"; new (q) ST::string(ci ? S->before_last(u8" ") : S->after_last(u8"a", cs)); break;
+                        case 13: what = "format(validation)"; new (q) ST::string(ST::format(ST::substitute_invalid, "{}{}", *S, *J)); break;
+                        case 14: what = "format_latin_1"; new (q) ST::string(ST::format_latin_1("{}-{}", *S, J->c_str())); break;
+                        case 15: what = "_stfmt"; new (q) ST::string("{}|{}"_stfmt(*S, *J)); break;
+                        case 16: { what = "writef"; std::ostringstream os; ST::writef(os, "{}:{>3}", *S, *J); std::string out = os.str(); new (q) ST::string(out.data(), out.size(), ST::assume_valid); break; }
+                        case 17: what = "before/after(own cstr)"; new (q) ST::string(ci ? S->before_first(J->c_str(), cs) : S->after_first(J->c_str(), cs)); break;
+                        case 18: what = "before/after(own cstr)"; new (q) ST::string(ci ? S->before_last(J->c_str(), cs) : S->after_last(J->c_str(), cs)); break;
+                        case 19: what = "before/after(char,ci)"; new (q) ST::string(ci ? S->before_first('A', ST::case_insensitive) : S->after_last('Z', ST::case_insensitive)); break;
+                        case 20: what = "before/after(char,ci)"; new (q) ST::string(ci ? S->after_first('a', cs) : S->before_last(',', cs)); break;
+                        case 21: what = "string(to_utf32())"; new (q) ST::string(S->to_utf32(), ST::assume_valid); break;
+                        case 22: what = "string(to_wchar())"; new (q) ST::string(S->to_wchar(), ST::assume_valid); break;
+                        case 23: what = "from_std_string"; new (q) ST::string(ST::string::from_std_string(S->to_std_string(), ST::assume_valid)); break;
+                        case 24: what = "from_std_string"; new (q) ST::string(ST::string::from_std_string(S->view(a, n), ST::assume_valid)); break;
+                        case 25: what = "from_std_string"; new (q) ST::string(ci ? ST::string::from_std_wstring(S->to_std_wstring(), ST::assume_valid) : ST::string::from_std_string(S->to_std_wstring(), ST::assume_valid)); break;
+                        case 26: what = "from_std_string"; new (q) ST::string(ci ? ST::string::from_std_string(S->to_std_u16string(), ST::assume_valid) : ST::string::from_std_string(S->to_std_u32string(), ST::assume_valid)); break;
+                        case 27: what = "from_std_string"; new (q) ST::string(ci ? ST::string::from_std_string(S->to_std_u8string(), ST::assume_valid) : ST::string(S->to_std_u8string(), ST::assume_valid)); break;
+                        case 28: { what = "string(std string / view)"; std::u16string u = S->to_std_u16string(); new (q) ST::string(ci ? ST::string(u, ST::assume_valid) : ST::string(std::u16string_view(u), ST::assume_valid)); break; }
+                        case 29: { what = "string(std string / view)"; std::u32string u = S->to_std_u32string(); new (q) ST::string(ci ? ST::string(u, ST::assume_valid) : ST::string(std::u32string_view(u), ST::assume_valid)); break; }
+                        case 30: { what = "string(std string / view)"; std::wstring u = S->to_std_wstring(); new (q) ST::string(ci ? ST::string(u, ST::assume_valid) : ST::string(std::wstring_view(u), ST::assume_valid)); break; }
+                        case 31: what = "string(own pointer)"; new (q) ST::string(ci ? ST::string(S->c_str() + a, n, ST::assume_valid) : ST::string::from_utf8(S->c_str() + a, n, ST::assume_valid)); break;
+                        case 32: what = "string(own pointer)"; new (q) ST::string(ci ? ST::string::from_validated(S->u8_str() + a, n) : ST::string::from_utf8(S->u8_str() + a, n, ST::assume_valid)); break;
+                        case 33: what = "from_latin_1"; new (q) ST::string(ST::string::from_latin_1(S->c_str() + a, n)); break;
+                        case 34: what = "hex/base64 encode"; new (q) ST::string(ci ? ST::hex_encode(S->c_str(), sz) : ST::base64_encode(S->c_str(), sz)); break;
+                        case 35: { what = "string_stream.append"; ST::string_stream ss; ss.append(S->c_str(), sz); ss << J->c_str(); ss.append_char('x', 3); new (q) ST::string(ss.to_string(true, ST::assume_valid)); break; }
+                        case 36: what = "string(own c_str)"; new (q) ST::string(ci ? ST::string(S->c_str()) : ST::string::from_utf8(S->c_str())); break;
+                        case 37: what = "from_path(to_path)"; new (q) ST::string(ci ? ST::string::from_path(S->to_path()) : ST::string(S->to_path())); break;
+                        case 38: what = "substr(negative)"; new (q) ST::string(S->substr(-(ST_ssize_t)a, n)); break;
+                        default: what = "left/right(own size)"; new (q) ST::string(ci ? S->left(sz) : S->right(sz)); break;
+                        } }, i);
+                } catch (const std::filesystem::filesystem_error &) { t = -2; }
+                if (t == -1) { w.destroy_str((int)rd.idx(NS)); continue; }
+                if (t == -2) { lab(c, "refused-by-validation"); w.note("%d.%s refused; ", i, what); break; }
+                target = t; if (w.s[t].model == mi) lab(c, "result-equals-source"); lab(c, what); w.note("%d=%d.%s; ", t, i, what); break; }
+            case 76: {   // further const calls that return buffers / vectors
+                int k2 = w.free_res(); if (k2 < 0) { w.destroy_res((int)rd.idx(NR)); continue; }
+                int v = (int)rd.range(0, 9); size_t ms = rd.flag() ? ST_AUTO_SIZE : rd.range(0, 3); bool ci = rd.flag(); ST::case_sensitivity_t cs = ci ? ST::case_insensitive : ST::case_sensitive;
+                Res &R = w.r[k2]; const char *what = "";
+                try {
+                    va::LibScope l;
+                    switch (v) {
+                    case 0: what = "split(char8_t)"; R.obj = new std::vector<ST::string>(S->split(u8",", ms, cs)); R.kind = 5; break;
+                    case 1: what = "split(string,max)"; R.obj = new std::vector<ST::string>(S->split(*J, ms, cs)); R.kind = 5; break;
+                    case 2: what = "split(own cstr)"; R.obj = new std::vector<ST::string>(S->split(J->c_str(), ms, cs)); R.kind = 5; break;
+                    case 3: what = "tokenize(own cstr)"; R.obj = new std::vector<ST::string>(S->tokenize(J->c_str())); R.kind = 5; break;
+                    case 4: what = "hex_decode"; R.obj = new ST::char_buffer(ST::hex_decode(*S)); R.kind = 1; break;
+                    case 5: what = "base64_decode"; R.obj = new ST::char_buffer(ST::base64_decode(*S)); R.kind = 1; break;
+                    case 6: what = "to_latin_1(deprecated)"; R.obj = new ST::char_buffer(S->to_latin_1(ST::substitute_invalid)); R.kind = 1; break;
+                    case 7: what = "to_latin_1(false)"; R.obj = new ST::char_buffer(S->to_latin_1(false)); R.kind = 1; break;
+                    case 8: what = "split(char,max,ci)"; R.obj = new std::vector<ST::string>(S->split('A', ms, ST::case_insensitive)); R.kind = 5; break;
+                    default: { what = "hex_decode(hex_encode)"; ST::string hx = ST::hex_encode(S->c_str(), S->size()); R.obj = new ST::char_buffer(ST::hex_decode(hx)); R.kind = 1; break; }
+                    }
+                } catch (const ST::unicode_error &) { R.kind = 0; R.obj = nullptr; lab(c, "refused-by-validation"); }
+                  catch (const ST::codec_error &) { R.kind = 0; R.obj = nullptr; lab(c, "refused-by-codec"); }
+                if (R.kind) { w.snap(k2); R.derived_from = i; lab(c, what); w.note("result%d=%d.%s; ", k2, i, what); }
+                break; }
+            case 77: case 78: {   // further const calls that return scalars / std objects
+                va::LibScope l;
+                size_t sz = S->size(); size_t a = rd.range(0, sz), n = rd.range(0, sz - a); bool ci = rd.flag(); ST::case_sensitivity_t cs = ci ? ST::case_insensitive : ST::case_sensitive;
+                static const int bases[6] = {0, 10, 16, 2, 8, 36}; int base = bases[rd.idx(6)];
+                const char *jz = J->c_str(); size_t jn = J->size();
+                unsigned long sink = 0;
+                switch ((int)rd.range(0, 9)) {
+                case 0: sink += S->find(jz, jn, cs) + S->find(a, 'a', cs) + S->find(a, jz, cs) + S->find(a, jz, jn, cs) + S->find(u8"a", cs) + S->find(u8"ab", 2, cs) + S->find(a, u8"b", cs) + S->find(a, u8"bc", 1, cs) + S->find(a, *J, cs) + S->find(jz, cs) + S->find(S->c_str() + a, n, cs); break;
+                case 1: sink += S->find_last(a, 'a', cs) + S->find_last(a, jz, cs) + S->find_last(a, jz, jn, cs) + S->find_last(a, *J, cs) + S->find_last(u8"a", cs) + S->find_last(u8"ab", 1, cs) + S->find_last(a, u8"a", cs) + S->find_last(a, u8"ab", 2, cs) + S->find_last(jz, jn, cs) + S->find_last(jz, cs) + S->find_last(S->c_str() + a, n, cs); break;
+                case 2: sink += S->contains(jz, jn, cs) + S->contains(u8"a", cs) + S->contains(u8"ab", 1, cs) + S->contains(jz, cs) + S->starts_with(u8"a", cs) + S->ends_with(u8"z", cs) + S->starts_with(jz, cs) + S->ends_with(jz, cs) + S->starts_with(S->c_str(), cs) + S->ends_with(S->c_str() + a, cs); break;
+                case 3: sink += S->compare(u8"abc", cs) + S->compare(jz, cs) + S->compare_n(jz, a, cs) + S->compare_n(u8"abc", a, cs) + S->compare_i(u8"ABC") + S->compare_i(jz) + S->compare_ni(jz, a) + S->compare_ni(u8"abc", a) + S->compare_ni(*J, a) + S->compare_n(*J, a, cs)
+                               + (*S == jz) + (*S != jz) + (*S == u8"abc") + (*S != u8"abc") + (*S == S->c_str()) + (*S != "abc") + S->compare(*J, cs); break;
+                case 4: { ST::conversion_result cr; sink += (unsigned long)S->to_long(base) + (unsigned long)S->to_long(cr, base) + S->to_ulong(base) + S->to_ulong(cr, base) + (unsigned long)S->to_long_long(base) + (unsigned long)S->to_long_long(cr, base) + (unsigned long)S->to_ulong_long(base) + (unsigned long)S->to_ulong_long(cr, base)
+                               + (unsigned long)S->to_int(cr, base) + S->to_uint(cr, base) + (unsigned long)S->to_short(cr, base) + S->to_ushort(cr, base) + (unsigned long)S->to_int64(base) + (unsigned long)S->to_int64(cr, base) + (unsigned long)S->to_uint64(base) + (unsigned long)S->to_uint64(cr, base)
+                               + (unsigned long)S->to_int(base) + (unsigned long)S->to_short(base) + S->to_ushort(base) + cr.ok() + cr.full_match(); break; }
+                case 5: { ST::conversion_result cr; sink += (S->to_float() > 1.0f) + (S->to_float(cr) > 1.0f) + (S->to_double() > 1.0) + (S->to_double(cr) > 1.0) + S->to_bool() + S->to_bool(cr) + cr.ok(); break; }
+                case 6: { static const char subs[] = "?"; static const char8_t subs8[] = u8"?"; sink += (unsigned long)*S->c_str(subs) + (unsigned long)*S->u8_str(subs8) + (unsigned long)*S->data() + (S->c_str(subs) == (sz ? S->c_str() : subs));
+                          for (auto it = S->cbegin(); it != S->cend(); ++it) sink += (unsigned char)*it; for (auto it = S->crbegin(); it != S->crend(); ++it) sink += (unsigned char)*it; for (auto it = S->rbegin(); it != S->rend(); ++it) sink += (unsigned char)*it;
+                          std::string_view vw = S->view(a, n); for (char ch : vw) sink += (unsigned char)ch; sink += (unsigned long)S->view(a).size() + (unsigned long)(S->end() - S->begin()) + (sz ? (unsigned long)S->at(a < sz ? a : sz - 1) + (unsigned long)(*S)[a < sz ? a : 0] : 0); break; }
+                case 7: { std::string o1("previous content that is long enough to live on the heap"); S->to_std_string(o1); std::string o2("x"); S->to_std_string(o2, false); std::string o3; S->to_std_string(o3, false, ST::substitute_invalid); std::wstring ow(L"w"); S->to_std_string(ow);
+                          std::u16string o16(u"u"); S->to_std_string(o16); std::u32string o32(U"U"); S->to_std_string(o32); std::u8string o8(u8"8"); S->to_std_string(o8); std::string d = S->to_std_string(false, ST::substitute_invalid); std::u8string p8 = S->to_std_u8string();
+                          sink += (unsigned long)(o1.size() + o2.size() + o3.size() + ow.size() + o16.size() + o32.size() + o8.size() + d.size() + p8.size()); break; }
+                case 8: { try { std::filesystem::path p = S->to_path(); sink += (unsigned long)p.native().size(); } catch (const std::exception &) { }
+                          if (!capped(2 * sz + jn + 64)) { ST::printf(devnull(), "{}{>2}", *S, *J); std::wostringstream wo; try { ST::writef(wo, "{}", *S); } catch (const ST::unicode_error &) { } sink += (unsigned long)wo.str().size(); } break; }
+                default: { unsigned char out[64]; sink += (unsigned long)ST::hex_decode(*S, out, sizeof out) + (unsigned long)ST::base64_decode(*S, out, sizeof out) + (unsigned long)ST::hex_decode(*S, nullptr, 0) + (unsigned long)ST::base64_decode(*S, nullptr, 0); break; }
+                }
+                g_sink = sink;
+                lab(c, "scalar-read-2"); w.note("readx(%d,%d); ", i, j); break; }
+            case 79: {   // stream extraction into a live string (a mutation of that string only)
+                std::string src = J->to_std_string();
+                w.mutated(i); target = i;
+                if (rd.flag()) { std::istringstream in(src); va::LibScope l; in >> *S; }
+                else { std::wstring ws; { va::LibScope l; ws = J->to_std_wstring(); } std::wistringstream in(ws); va::LibScope l; in >> *S; }
+                w.adopt(i); lab(c, "istream>>"); w.note("in(%d)>>%d; ", j, i); break; }
             // ------------------------------------------------------------ const calls returning scalars
             default: {
                 if (!S) continue;
@@ -272,19 +687,21 @@ std::string run(verif::Reader &rd, Case &c, World &w) {
                 case 5: { for (char ch : *S) sink += ch; sink += S->front() + S->back() + (sz ? S->at(sz - 1) : 0) + (*S)[0] + (S->rbegin() != S->rend() ? *S->rbegin() : 0) + S->empty(); break; }
                 case 6: { std::string a = S->to_std_string(); std::wstring b = S->to_std_wstring(); std::u16string c16 = S->to_std_u16string(); std::u32string c32 = S->to_std_u32string(); std::string lat = S->to_std_string(false); sink += (unsigned long)(a.size() + b.size() + c16.size() + c32.size() + lat.size()); break; }
                 case 7: { std::wostringstream os; os << *S; sink += (unsigned long)os.str().size(); std::basic_ostringstream<char32_t> o32; o32 << *S; sink += (unsigned long)o32.str().size(); break; }
-                case 8: { ST::string_stream ss; ss << *S << *S; sink += (unsigned long)ss.size(); ST::string f = ST::format("{<20}{}", *S, *S); sink += (unsigned long)f.size(); break; }
+                case 8: { if (capped(2 * sz + 64)) break; ST::string_stream ss; ss << *S << *S; sink += (unsigned long)ss.size(); ST::string f = ST::format("{<20}{}", *S, *S); sink += (unsigned long)f.size(); break; }
                 default: { ST::char_buffer b; S->to_buffer(b); ST::utf16_buffer b16; S->to_buffer(b16); ST::utf32_buffer b32; S->to_buffer(b32); ST::wchar_buffer bw; S->to_buffer(bw); sink += (unsigned long)(b.size() + b16.size() + b32.size() + bw.size()); sink += (unsigned long)S->view().size() + (unsigned long)S->u8_str()[0]; break; }
                 }
                 g_sink = sink;
-                c.label("scalar-read"); w.note("read%d(%d,%d); ", op % 10, i, j);
+                lab(c, "scalar-read"); w.note("read%d(%d,%d); ", op % 10, i, j);
                 break; }
             }
         } catch (const ST::unicode_error &) {
             // a string holding bytes that are not valid UTF-8 (e.g. a substr that cut a character) may be refused by calls that
             // re-validate (format, replace, +=): that is no violation of C04; the invariant below still has to hold
-            c.label("refused-by-validation"); w.note("(unicode_error); ");
+            lab(c, "refused-by-validation"); w.note("(unicode_error); ");
             if (target >= 0 && w.s[target].obj) w.adopt(target);
             if (target2 >= 0 && w.s[target2].obj) w.adopt(target2);
+        } catch (const verif::budget_exceeded &) {
+            w.discard = true; return std::string();     // a resource bound of the harness (allocation registry), never a verdict
         } catch (const std::out_of_range &) {
             // at() on an empty string etc. is not generated; treat as unexpected
             return "step " + verif::unum(k) + ": unexpected std::out_of_range";
@@ -311,6 +728,7 @@ int verif_case(const uint8_t *data, size_t size, Case &c) {
     World w; w.want_log = c.want_text;
     std::string why = run(r, c, w);
     c.nontrivial = w.nontrivial;
+    if (w.discard) { va::reset(); return verif::CASE_DISCARD; }
     if (c.want_text) c.text = "C04 limit=" + verif::unum(w.L) + "  " + (w.log.size() > 1000 ? w.log.substr(0, 1000) + "..." : w.log);
     if (!why.empty()) { va::reset(); return c.fail(why); }
     va::reset();
@@ -320,5 +738,8 @@ int verif_case(const uint8_t *data, size_t size, Case &c) {
 long verif_enumerate(int, int, int, verif::EnumReport &) { return 0; }
 void verif_corpus(std::vector<std::vector<uint8_t>> &out) {
     out.push_back({0, 0, 0, 0, 5, 1, 18, 0, 0, 0, 0, 1, 16, 0, 0, 0});
+    // extended table: string(300); pre-state short-after-long,whole-sliced; alias set from own tail; string from a moved pool buffer; to_buffer into it
+    out.push_back({64, 0, 0, 0, 0, 6, 1, 64, 0, 0, 0, 5, 1, 3, 3, 9, 68, 0x40, 0, 0, 0, 2, 1, 71, 0, 0, 0, 1, 0, 1, 0, 70, 0, 0, 0, 1, 0, 0});
+    out.push_back({63, 0, 0, 0, 0, 5, 2, 66, 0, 0, 0, 20, 1, 72, 0, 0, 0, 11, 73, 0, 0, 0, 2});
     out.push_back({1, 1, 0, 0, 6, 2, 4, 1, 0, 0, 12, 1, 1, 0});
 }
